@@ -1,6 +1,7 @@
 (* Props/C11.v — termination and bounded work on arbitrary input (the logic half; the runtime
    half — CPU time, allocator behaviour — is fault enumeration under resource limits). *)
 From Coq Require Import ZArith List Bool.
+From DH Require Model.Qcow2 Proofs.Qcow2 Model.Vmdk Proofs.Vmdk.
 From DH Require Import Base.Plan Base.Table Model.Vhd Proofs.Vhd Model.Vdi Proofs.Vdi Model.Vhdx Proofs.Vhdx
   Model.Hds Proofs.Hds Model.SnapChain Proofs.SnapChain Model.HyperV Proofs.HyperV.
 Import ListNotations.
@@ -29,6 +30,21 @@ Theorem C11_hds_progress :
   forall h, 0 < h_cs h -> forall fuel off len, 0 <= off -> len < Z.of_nat fuel -> hds_read h fuel off len <> Fuel.
 Proof. exact hds_read_progress. Qed.
 Print Assumptions C11_hds_progress.
+
+(* QCOW2 and VMDK sparse extents: the same, for arbitrary L1/L2 tables and grain directories/tables *)
+Theorem C11_qcow2_progress :
+  forall (im : Model.Qcow2.image) fuel off len,
+  Proofs.Qcow2.wf_image im -> Z.min len (Model.Qcow2.size_of im - off) < Z.of_nat fuel ->
+  Model.Qcow2.qcow2_read im fuel off len <> Fuel.
+Proof. exact Proofs.Qcow2.qcow2_read_progress. Qed.
+Print Assumptions C11_qcow2_progress.
+
+Theorem C11_vmdk_progress :
+  forall f sp soff hp, Proofs.Vmdk.wf_words f -> Proofs.Vmdk.wf_geom sp ->
+  forall fuel sector count, soff <= sector -> count < Z.of_nat fuel ->
+  Model.Vmdk.sparse_read_sectors f sp soff hp fuel sector count <> Fuel.
+Proof. intros f sp soff hp Hw Hg fuel sector count. exact (Proofs.Vmdk.sparse_read_sectors_fuel f sp soff hp Hw Hg fuel sector count). Qed.
+Print Assumptions C11_vmdk_progress.
 
 (* Reference walks: the Parallels snapshot chain ends for EVERY shot list — cyclic parent links are
    refused — and a chain never has more elements than there are shots. *)
